@@ -82,7 +82,7 @@ func writeEvidence(spec *Spec, tier string, seed int64, path string, stats []*ru
 			"sat": qsat, "unsat": qunsat, "unknown": qunk, "answered_by_fallback_solver": qfb, "unsat_cross_checked_by_second_solver": qcross,
 		},
 		"solver_time_s":    round1(float64(sns) / 1e9),
-		"solver":           "z3 4.8.12 (one pipe per worker, reset per path); on unknown: cvc5 --solve-bv-as-int=sum, cvc5, z3-new 5.1.0",
+		"solver":           primarySolver(spec) + " (one pipe per worker, reset per path); on unknown: cvc5 --solve-bv-as-int=sum, cvc5, z3-new 5.1.0, fresh z3",
 		"known_findings_seen": known,
 		"inconclusive":     inconclusive,
 		"load_s":           round1(loadS),
@@ -118,4 +118,11 @@ func max64(a, b int64) int64 {
 		return a
 	}
 	return b
+}
+
+func primarySolver(spec *Spec) string {
+	if spec.Solver == "cvc5-int" {
+		return "cvc5 1.0 --incremental --solve-bv-as-int=sum"
+	}
+	return "z3 4.8.12"
 }
